@@ -1,6 +1,7 @@
 import PlasVerif.Driver.Util
 import PlasVerif.Model.Urls
 import PlasVerif.Spec.Links
+import PlasVerif.Model.UrlsIndex
 namespace PlasVerif.Driver.C14
 open PlasVerif.Driver PlasVerif.Model.Urls PlasVerif.Spec.Links
 
@@ -119,6 +120,33 @@ def handle : List String → String
         s!"{model}\t{spec}"
       | _ => "bad-op"
     | _, _, _ => "bad-op"
+  | "post" :: toks =>
+    -- post <piece>* ; piece = P /P TD /TD BR W T A=<id> E=<id> L=<href>
+    let parse : String → Option Piece := fun w =>
+      if w == "W" then some .ws else if w == "T" then some .text
+      else if w.startsWith "A=" then some (.anchor (w.drop 2).toString)
+      else if w.startsWith "E=" then some (.elem (w.drop 2).toString)
+      else if w.startsWith "L=" then some (.link (w.drop 2).toString)
+      else if ["P", "/P", "TD", "/TD", "BR"].contains w then some (.tag w) else none
+    match toks.mapM parse with
+    | some ps =>
+      let one := s!"{",".intercalate (pageIds ps)}|{",".intercalate (pageHrefs ps)}"
+      s!"H5:{one};XH:{one}\tok"
+    | none => "bad-op"
+  | "idx" :: toks =>
+    -- idx <entry>* ; entry = ! (empty sort key: IndexError) | e (empty transliteration) | code points joined by '.'
+    let parse : String → Option (Option (List Char)) := fun w =>
+      if w == "!" then some none
+      else if w == "e" then some (some [])
+      else ((w.splitOn ".").mapM (fun (d : String) => d.toNat?.map Char.ofNat)).map some
+    match toks.mapM parse with
+    | some cs =>
+      let gs := PlasVerif.Model.UrlsIndex.groups cs
+      let show1 := fun (g : PlasVerif.Model.UrlsIndex.Group) => s!"{String.ofList g.title}/{String.ofList g.id}/{g.items.length}"
+      let model := ";".intercalate (gs.map show1)
+      let uniq := nodupB (gs.map (·.id))
+      s!"{model}\t{if uniq then "ok" else "bad:ids"}"
+    | none => "bad-op"
   | _ => "bad-op"
 
 end PlasVerif.Driver.C14
